@@ -31,22 +31,54 @@ import deck as deckmod
 import c06_gen
 from common import cz, cstr, clist, cfloat, copt, cpair
 
-THEOREMS = ['C06_indices_first_fastest', 'C06_items_array',
-            'C06_items_array_3d', 'C06_homogeneous_fill',
-            'C06_reciprocal_dual', 'C06_square_base_vectors',
-            'C06_square_base_vectors_translate', 'C06_outward_sense',
-            'C06_square_errors', 'C06_compose_transform_point',
-            'C06_develop_lattice_located', 'C06_develop_lattice_complete',
-            'C06_dimension_checks_spec', 'C06_degenerate_ranges_developed',
-            'C06_square_sides_irrelevant', 'C06_develop_lattice_square',
-            'C06_extract_surfaces', 'C06_parse_ranges_spelled',
-            'C06_parse_lattice_option', 'C06_getitem_tuple_last_fastest',
-            'C06_parse_fill_kw_array', 'C06_parse_fill_kw_short_and_shapes',
-            'C06_array_entry_transformation_refuted',
-            'C06_lattice_end_to_end', 'C06_lattice_end_to_end_3d',
-            'C06_lattice_end_to_end_1d_2d', 'C06_lattice_end_to_end_linked',
-            'C06_link_inverse_satisfiable', 'C06_fill_array_read_as_mcnp',
-            'C06_parse_fill_kw_flat']
+THEOREMS = ['C06_family_index', 'C06_family_numeric', 'C06_family_develop',
+            'C06_family_text', 'C06_family_linked']
+# the members of the families (coq/Properties/C06.v): each family is literally
+# the conjunction of its members' statements
+MEMBERS = {
+    'C06_family_index': [
+        'C06_indices_first_fastest',
+        'C06_items_array',
+        'C06_items_array_3d',
+        'C06_getitem_tuple_last_fastest',
+        'C06_homogeneous_fill',
+        'C06_dimension_checks_spec',
+    ],
+    'C06_family_numeric': [
+        'C06_reciprocal_dual',
+        'C06_square_base_vectors',
+        'C06_square_base_vectors_translate',
+        'C06_outward_sense',
+        'C06_square_sides_irrelevant',
+        'C06_square_errors',
+        'C06_compose_transform_point',
+    ],
+    'C06_family_develop': [
+        'C06_develop_lattice_located',
+        'C06_develop_lattice_complete',
+        'C06_degenerate_ranges_developed',
+        'C06_develop_lattice_square',
+        'C06_extract_surfaces',
+        'C06_lattice_end_to_end',
+        'C06_lattice_end_to_end_3d',
+        'C06_lattice_end_to_end_1d_2d',
+    ],
+    'C06_family_text': [
+        'C06_parse_ranges_spelled',
+        'C06_parse_lattice_option',
+        'C06_parse_fill_kw_array',
+        'C06_parse_fill_kw_short_and_shapes',
+        'C06_array_entry_transformation_refuted',
+        'C06_fill_array_read_as_mcnp',
+        'C06_parse_fill_kw_flat',
+        'C06_tokenize_fill_array',
+    ],
+    'C06_family_linked': [
+        'C06_lattice_end_to_end_linked',
+        'C06_lattice_end_to_end_conv_linked',
+        'C06_link_inverse_satisfiable',
+    ],
+}
 TRUSTED = [
     'hand-written model coq/C06/Model.v (modelled, tied by execution only)',
     'cells, surfaces other than planes and the effect of a transformation on a '
@@ -696,6 +728,7 @@ def run(res, tier, seed, proofs_ok):
                       {'theorem_or_correspondence': 'coverage',
                        'input': {'lines': [list(m) for m in missing[:20]]}},
                       found_input=False)
+    res.extra['family_members'] = MEMBERS
     res.extra['tier_depth'] = (
         'quick: 1x direct-call streams (150-300 cases each), bounds '
         'exhaustive for 1-2 ranges (156), 240 random + 32 corpus valid decks, '
@@ -1254,16 +1287,27 @@ def deck_stream(res, rng, quick):
         for rep in range(2 if quick else 6):
             corpus.append((dict(force), random.Random(4242 + 97 * j + rep)))
     n_valid += len(corpus)
+    # broken corpus: the malformed shapes a mutation of the dimension checks or
+    # of the base-vector code needed, from fixed seeds (same decks every run)
+    broken_corpus = [(fault, random.Random(777 + 31 * j))
+                     for j, fault in enumerate(BROKEN_CORPUS)]
+    n_broken += len(broken_corpus)
     for k in range(n_valid + n_broken):
         broken = k >= n_valid
         force = {}
         gen_rng = rng
+        forced_fault = None
         if k < len(corpus):
             force, gen_rng = corpus[k]
+        elif broken and k - n_valid < len(broken_corpus):
+            forced_fault, gen_rng = broken_corpus[k - n_valid]
+            force = {'d': 2, 'kind': 'ortho', 'rpp': False,
+                     'homogeneous': False, 'nested': False}
         deck, meta = c06_gen.gen_deck(gen_rng, force)
         fault = None
         if broken:
-            fault = c06_gen.break_deck(rng, deck, meta)
+            fault = c06_gen.break_deck(gen_rng if forced_fault else rng, deck,
+                                       meta, forced_fault)
         text = deckmod.render(deck)
         args = deckmod.lattice_args(deck)
         # the corpus, 40 random decks and every broken deck run under the
@@ -1381,6 +1425,10 @@ def deck_stream(res, rng, quick):
               lambda m: f'fault={m["fault"]} out={m["out"]} deck=\n{m["deck"]}')
     return bad
 
+
+BROKEN_CORPUS = ['padding_nonzero', 'too_few_ranges', 'range_in_padding',
+                 'shifted_ranges', 'too_many_ranges', 'same_plane',
+                 'drop_surface', 'extra_pair']
 
 CORPUS_SHAPES = [
     # rotating fill transformation on 1-D, 2-D, 3-D lattices (a82b50a)
